@@ -110,11 +110,16 @@ func execC08(seg []Ev) []Ev {
 			oc, _ := guardedLong(func() {
 				for i := 0; i < count; i++ {
 					r, err := fn.Calculate(nil, m)
-					if err != nil || r == nil || r.Type() != variants.Float {
+					if err != nil || r == nil || (r.Type() != variants.Float && r.Type() != variants.Double) {
 						bad++
 						continue
 					}
-					f := float64(r.AsFloat())
+					var f float64
+					if r.Type() == variants.Float {
+						f = float64(r.AsFloat())
+					} else {
+						f = r.AsDouble()
+					}
 					if f < mn {
 						mn = f
 					}
@@ -153,7 +158,7 @@ func execC08(seg []Ev) []Ev {
 			aj[i] = valJSON(args[i])
 		}
 		e := Ev{"op": "fn", "mgr": mgr, "name": name, "canon": strings.ToLower(name), "argspec": specs, "args": aj,
-			"hit": 0, "hits": []int{}, "want": "", "rms": -1, "t0": 0, "t1": 0, "rsec": 0, "n24": -1, "parts": []int{}, "aparts": []int{},
+			"hit": 0, "hits": []int{}, "want": "", "want64": "", "rms": -1, "t0": 0, "t1": 0, "rsec": 0, "n24": -1, "parts": []int{}, "aparts": []int{},
 			"eo": "none", "er": valJSON(nil)}
 		m := c06mgr(mgr)
 		coll := functions.NewDefaultFunctionCollection()
@@ -250,6 +255,10 @@ func execC08(seg []Ev) []Ev {
 				if f := math.Floor(float64(r.AsFloat()) * (1 << 24)); math.Abs(f) < (1 << 30) {
 					e["n24"] = int(f)
 				}
+			case variants.Double:
+				if f := math.Floor(r.AsDouble() * (1 << 24)); math.Abs(f) < (1 << 30) {
+					e["n24"] = int(f)
+				}
 			}
 		}
 		// the IEEE functions: what the host's math library gives for the argument converted to a double (any magnitude, NaN, infinities)
@@ -295,8 +304,10 @@ func execC08(seg []Ev) []Ev {
 		switch e["canon"] {
 		case "e":
 			e["want"] = strconv.FormatFloat(float64(float32(math.E)), 'g', -1, 64)
+			e["want64"] = strconv.FormatFloat(math.E, 'g', -1, 64)
 		case "pi":
 			e["want"] = strconv.FormatFloat(float64(float32(math.Pi)), 'g', -1, 64)
+			e["want64"] = strconv.FormatFloat(math.Pi, 'g', -1, 64)
 		case "dayofweek":
 			if len(args) == 1 && args[0].Type() == variants.DateTime {
 				t := args[0].AsDateTime()
